@@ -10,6 +10,7 @@ from ..viol import Violation, require
 ID = 'C04'
 LEVEL = 'exploration'
 RULE = (
+    'Sandwich: a sweep of the three forms of let over a manager with an unused variable, one perturbation (undeclare / declare / swap / collect / reorder / sift), the same sweep again. '
     'S: every position of the dynamic-reordering trigger inside let in its three forms (as in C09). '
     'H: Hypothesis histories on used managers (several lets in one manager without a collection in between, collections, re-used node numbers, swaps, dynamic reordering) mixing the three forms of let. '
     'E (n<=3, all orders, fresh and used managers): cofactor - every '
@@ -45,6 +46,45 @@ def _hist_plan(tier, seed):
             for s in range(8 if tier == 'thorough' else 4)]
 
 
+def _sandwich_calls(b, refs, nm, den):
+    n = 3
+    N = 5
+    for t in range(0, 256, 2):
+        for vals in itertools.product((None, False, True), repeat=n):
+            d = {nm[j]: v for j, v in enumerate(vals) if v is not None}
+            if not d:
+                continue
+
+            def call(t=t, d=d):
+                r = b.let(dict(d), refs[t])
+                want = tt.widen(tt.cofactor(
+                    t, n, {nm.index(x): v for x, v in d.items()}), n, N)
+                require(den(r) == want, 'cofactor.wrong_after_perturbation',
+                        dict(got=den(r), want=want))
+            yield dict(op='cofactor', t=t, d=d), call
+        for tgt in ((1, 0, None), (None, 2, 1), (2, None, 0), (1, 2, 0),
+                    (0, 0, None)):
+            d = {nm[j]: nm[k] for j, k in enumerate(tgt) if k is not None}
+
+            def call(t=t, d=d):
+                r = b.let(dict(d), refs[t])
+                want = tt.widen(tt.rename(
+                    t, n, {nm.index(x): nm.index(y) for x, y in d.items()}),
+                    n, N)
+                require(den(r) == want, 'rename.wrong_after_perturbation',
+                        dict(got=den(r), want=want))
+            yield dict(op='rename', t=t, d=d), call
+        for j in range(n):
+            for tg in (0x96, 0xe8, (t * 5 + 1) & 255):
+                def call(t=t, j=j, tg=tg):
+                    r = b.let({nm[j]: refs[tg]}, refs[t])
+                    want = tt.widen(tt.compose(t, n, {j: tg}), n, N)
+                    require(den(r) == want,
+                            'compose.wrong_after_perturbation',
+                            dict(got=den(r), want=want))
+                yield dict(op='compose', t=t, x=nm[j], g=tg), call
+
+
 def plan(tier, seed):
     specs = []
     # trigger-position sweeps of dynamic reordering (machinery of C09)
@@ -53,6 +93,7 @@ def plan(tier, seed):
                           only=['let_const', 'let_compose', 'let_rename'],
                           examples=200 if tier == 'thorough' else 30))
     specs += _hist_plan(tier, seed)
+    specs += fix.sandwich_specs(tier, seed)
     for n in (1, 2, 3):
         for order in fix.orders(n):
             for variant in ('fresh', 'used'):
@@ -375,6 +416,10 @@ def run_random(spec, out):
 
 
 def replay_into(case, out):
+    if case.get('kind') == 'sandwich':
+        return fix.run_sandwich({k: case[k] for k in (
+            'kind', 'perturbation', 'pos', 'order', 'seed')}, out,
+            _sandwich_calls)
     if case.get('kind') == 'schedule':
         from . import c09
         return c09.replay_into(case, out)
@@ -402,6 +447,8 @@ def replay_into(case, out):
 
 
 def run(spec, out):
+    if spec['kind'] == 'sandwich':
+        return fix.run_sandwich(spec, out, _sandwich_calls)
     if spec['kind'] == 'schedule':
         from . import c09
         return c09.run_schedule(spec, out)
